@@ -2,6 +2,7 @@ package main
 
 import (
 	"fmt"
+	"sort"
 	"os"
 	"math/rand"
 	"time"
@@ -48,6 +49,10 @@ type Engine struct {
 	pathsTotal       int
 	mergesTotal      int
 	trace            bool
+	cur              *State
+	boundCache       map[int]int
+	queryCache       map[string]cachedQuery
+	varsCache        map[int][]string
 	noMerge          bool
 }
 
@@ -55,7 +60,7 @@ func NewEngine(prog *ssa.Program, ts *TermStore, solver *Solver) *Engine {
 	return &Engine{ts: ts, solver: solver, prog: prog, fnInfos: map[*ssa.Function]*fnInfo{},
 		baseMem: map[*Object]*cellBlock{}, globals: map[*ssa.Global]*Object{}, pkgInit: map[*ssa.Package]bool{},
 		strObjs: map[string]*Object{}, stubs: map[string]*ssa.Function{}, maxUnwind: 64, maxSteps: 20000000,
-		funcsEncoded: map[string]bool{}}
+		funcsEncoded: map[string]bool{}, boundCache: map[int]int{}, queryCache: map[string]cachedQuery{}, varsCache: map[int][]string{}}
 }
 
 // ---- feasibility ----
@@ -78,18 +83,115 @@ func (e *Engine) feasible(st *State, c *Term) (bool, *Env, bool) {
 	if v, ok := e.evalUnderModel(st, c); ok && v {
 		return true, st.model, true
 	}
-	as := append(append([]*Term(nil), st.pc...), c)
+	// constraint independence: only path-condition conjuncts that share variables
+	// (or uninterpreted function symbols) with the goal, transitively, matter.
+	rel := map[string]bool{}
+	for _, v := range e.varsOf(c) {
+		rel[v] = true
+	}
+	used := make([]bool, len(st.pc))
+	var as []*Term
+	for changed := true; changed; {
+		changed = false
+		for i, p := range st.pc {
+			if used[i] {
+				continue
+			}
+			vs := e.varsOf(p)
+			hit := len(vs) == 0
+			for _, v := range vs {
+				if rel[v] {
+					hit = true
+					break
+				}
+			}
+			if hit {
+				used[i] = true
+				changed = true
+				as = append(as, p)
+				for _, v := range vs {
+					rel[v] = true
+				}
+			}
+		}
+	}
+	as = append(as, c)
+	// query cache
+	ids := make([]int, len(as))
+	for i, a := range as {
+		ids[i] = a.id
+	}
+	sort.Ints(ids[:len(ids)-1])
+	key := fmt.Sprint(ids)
+	if r, ok := e.queryCache[key]; ok {
+		e.h.cacheHits++
+		if r.res == Unsat {
+			return false, nil, true
+		}
+		if r.res == Sat {
+			return true, e.combineModel(st, r.model, rel), true
+		}
+	}
 	res, model, diag := e.decide(as)
+	if res != Unknown {
+		e.queryCache[key] = cachedQuery{res, model}
+	}
 	switch res {
 	case Sat:
-		env := NewEnv()
-		env.vals = model
-		return true, env, true
+		return true, e.combineModel(st, model, rel), true
 	case Unsat:
 		return false, nil, true
 	}
 	e.h.inconclusive = append(e.h.inconclusive, "feasibility query unknown: "+diag)
 	return true, nil, false
+}
+
+type cachedQuery struct {
+	res   Result
+	model map[string]*big.Int
+}
+
+// combineModel extends a model of the relevant sub-problem with the state's
+// witness for all other (independent) variables.
+func (e *Engine) combineModel(st *State, model map[string]*big.Int, rel map[string]bool) *Env {
+	env := NewEnv()
+	if st.model != nil {
+		for k, v := range st.model.vals {
+			if !rel[k] {
+				env.vals[k] = v
+			}
+		}
+	}
+	for k, v := range model {
+		env.vals[k] = v
+	}
+	return env
+}
+
+// varsOf returns the variable names (and "uf:" symbols) occurring in t, cached per term.
+func (e *Engine) varsOf(t *Term) []string {
+	if v, ok := e.varsCache[t.id]; ok {
+		return v
+	}
+	var out []string
+	seen := map[string]bool{}
+	for _, n := range e.ts.Cone(t) {
+		var name string
+		switch n.op {
+		case OpVar:
+			name = n.name
+		case OpUF:
+			name = "uf:" + n.name
+		default:
+			continue
+		}
+		if !seen[name] {
+			seen[name] = true
+			out = append(out, name)
+		}
+	}
+	e.varsCache[t.id] = out
+	return out
 }
 
 // decide answers satisfiability of a conjunction: a direct query under a short
@@ -544,6 +646,7 @@ func (e *Engine) run1(st *State, stops []stopPoint) []*State {
 		}
 		f := st.top()
 		in := f.block.Instrs[f.ip]
+		e.cur = st
 		st.steps++
 		e.stepsTotal++
 		if st.steps > e.maxSteps {
